@@ -873,6 +873,13 @@ type smallTables struct {
 	bucketsLen string  // array length expression of rulesByTag
 	multiLen   string
 	mergeAppend bool   // appendScopedRuleSet appends src after dst per tag
+	mergeCount    string // how appendScopedRuleSet maintains dst.categorizedNum: per-bucket | total | last
+	mergeComments string // ... and dst.commentRules: append | last
+	walkGate      string // rulesRunner.run walks the file: counter-nonzero | always
+	commentGate   string // ... and runs the comment rules: comments-nonempty | always
+	mergeStartsEmpty bool // mergeRuleSets appends every argument to a fresh empty set
+	engineLoadOK  bool   // Engine.Load / LoadFromIR: first set taken as is, later ones merged after the present one
+	loadFileMergeOK bool // LoadFile: own rules first, then the sets of the imported bundle files in import order
 	runLoop    runLoopShape
 }
 
@@ -973,19 +980,56 @@ func (l *wfLoader) readTables() (*smallTables, error) {
 		return nil, fmt.Errorf("appendScopedRuleSet not found / unknown signature")
 	}
 	dstN, srcN := ap.Type.Params.List[0].Names[0].Name, ap.Type.Params.List[0].Names[1].Name
-	want := []string{
-		"for tag, rules := range " + srcN + ".rulesByTag { " + dstN + ".rulesByTag[tag] = append(" + dstN + ".rulesByTag[tag], cloneRuleSlice(rules)...) " + dstN + ".categorizedNum += len(rules) }",
-		dstN + ".commentRules = append(" + dstN + ".commentRules, " + srcN + ".commentRules...)",
-		"return " + dstN,
-	}
-	t.mergeAppend = len(ap.Body.List) == len(want)
-	for i := range want {
-		if t.mergeAppend && wkSrc(fset, ap.Body.List[i]) != want[i] {
-			t.mergeAppend = false
+	// body: the per-tag append loop (src after dst, cloned), the counter bookkeeping (inside the loop per bucket, or a
+	// statement of its own), the comment rules, `return dst`; anything else is not understood
+	bucketAppend := dstN + ".rulesByTag[tag] = append(" + dstN + ".rulesByTag[tag], cloneRuleSlice(rules)...)"
+	retOK := false
+	for _, st := range ap.Body.List {
+		text := wkSrc(fset, st)
+		setCount := func(m string) error {
+			if t.mergeCount != "" {
+				return fmt.Errorf("appendScopedRuleSet: the counter is maintained twice")
+			}
+			t.mergeCount = m
+			return nil
+		}
+		var err error
+		switch {
+		case text == dstN+".categorizedNum += "+srcN+".categorizedNum":
+			err = setCount("total")
+		case text == dstN+".categorizedNum = "+srcN+".categorizedNum":
+			err = setCount("last")
+		case text == dstN+".commentRules = append("+dstN+".commentRules, "+srcN+".commentRules...)":
+			t.mergeComments = "append"
+		case text == dstN+".commentRules = "+srcN+".commentRules":
+			t.mergeComments = "last"
+		case text == "return "+dstN:
+			retOK = true
+		default:
+			rs, ok := st.(*ast.RangeStmt)
+			if !ok || wkSrc(fset, rs.X) != srcN+".rulesByTag" || wkSrc(fset, rs.Key) != "tag" || rs.Value == nil || wkSrc(fset, rs.Value) != "rules" || t.mergeAppend {
+				return nil, fmt.Errorf("appendScopedRuleSet: statement not understood: %s", text)
+			}
+			for _, inner := range rs.Body.List {
+				switch wkSrc(fset, inner) {
+				case bucketAppend:
+					t.mergeAppend = true
+				case dstN + ".categorizedNum += len(rules)":
+					err = setCount("per-bucket")
+				default:
+					return nil, fmt.Errorf("appendScopedRuleSet: statement not understood: %s", wkSrc(fset, inner))
+				}
+			}
+		}
+		if err != nil {
+			return nil, err
 		}
 	}
-	if !t.mergeAppend {
+	if !t.mergeAppend || !retOK {
 		return nil, fmt.Errorf("appendScopedRuleSet: body is not the per-tag append of src after dst")
+	}
+	if t.mergeCount == "" || t.mergeComments == "" {
+		return nil, fmt.Errorf("appendScopedRuleSet: categorizedNum / commentRules of the destination are not maintained")
 	}
 	cl := wkFindFunc(gf, "", "cloneRuleSlice")
 	wantClone := "out := make([]goRule, len(slice)) | for i, rule := range slice { clone := rule clone.pat = rule.pat.Clone() out[i] = clone } | return out"
@@ -1015,10 +1059,112 @@ func (l *wfLoader) readTables() (*smallTables, error) {
 	if !mergeLoop {
 		return nil, fmt.Errorf("mergeRuleSets: does not append the rule sets in argument order")
 	}
+	if len(mg.Body.List) > 0 {
+		first := wkSrc(fset, mg.Body.List[0])
+		t.mergeStartsEmpty = strings.HasPrefix(first, "out := &goRuleSet{ universal: &scopedGoRuleSet{},") || strings.HasPrefix(first, "out := &goRuleSet{universal: &scopedGoRuleSet{},")
+	}
+	if !t.mergeStartsEmpty {
+		return nil, fmt.Errorf("mergeRuleSets: the result does not start as an empty set: %s", wkSrc(fset, mg.Body.List[0]))
+	}
+	// --- runner.go: the gates of rulesRunner.run
+	run := wkFindFunc(rf, "rulesRunner", "run")
+	if run == nil {
+		return nil, fmt.Errorf("rulesRunner.run not found")
+	}
+	rrN := run.Recv.List[0].Names[0].Name
+	isWalk := func(n ast.Node) bool { return strings.Contains(wkSrc(fset, n), ".Walk(") }
+	isComments := func(n ast.Node) bool { return strings.Contains(wkSrc(fset, n), rrN+".runCommentRules(") }
+	for _, st := range run.Body.List {
+		ifs, isIf := st.(*ast.IfStmt)
+		switch {
+		case isIf && ifs.Else == nil && ifs.Init == nil && isWalk(ifs.Body) && !isComments(ifs.Body):
+			if wkSrc(fset, ifs.Cond) != rrN+".rules.universal.categorizedNum != 0" || t.walkGate != "" {
+				return nil, fmt.Errorf("rulesRunner.run: the condition of the AST walk is not understood: %s", wkSrc(fset, ifs.Cond))
+			}
+			t.walkGate = "counter-nonzero"
+		case isIf && ifs.Else == nil && ifs.Init == nil && isComments(ifs.Body) && !isWalk(ifs.Body):
+			if wkSrc(fset, ifs.Cond) != "len("+rrN+".rules.universal.commentRules) != 0" || t.commentGate != "" {
+				return nil, fmt.Errorf("rulesRunner.run: the condition of the comment rules is not understood: %s", wkSrc(fset, ifs.Cond))
+			}
+			t.commentGate = "comments-nonempty"
+		case isWalk(st) && isComments(st):
+			return nil, fmt.Errorf("rulesRunner.run: walk and comment rules in one statement")
+		case isWalk(st):
+			if _, ok := st.(*ast.ExprStmt); !ok || t.walkGate != "" {
+				return nil, fmt.Errorf("rulesRunner.run: the AST walk is not understood: %s", wkSrc(fset, st))
+			}
+			t.walkGate = "always"
+		case isComments(st):
+			if _, ok := st.(*ast.RangeStmt); !ok || t.commentGate != "" {
+				return nil, fmt.Errorf("rulesRunner.run: the comment-rule loop is not understood: %s", wkSrc(fset, st))
+			}
+			t.commentGate = "always"
+		}
+	}
+	if t.walkGate == "" || t.commentGate == "" {
+		return nil, fmt.Errorf("rulesRunner.run: AST walk / comment rules not found")
+	}
+	// --- engine.go: Load and LoadFromIR install the first rule set as it is and merge every further one after the present one
+	ef, err := parser.ParseFile(fset, filepath.Join(l.repo, "ruleguard/engine.go"), nil, 0)
+	if err != nil {
+		return nil, err
+	}
+	t.engineLoadOK = true
+	for _, name := range []string{"Load", "LoadFromIR"} {
+		fd := wkFindFunc(ef, "engine", name)
+		if fd == nil {
+			return nil, fmt.Errorf("engine.%s not found", name)
+		}
+		en := fd.Recv.List[0].Names[0].Name
+		found := false
+		for _, st := range fd.Body.List {
+			ifs, ok := st.(*ast.IfStmt)
+			if !ok || wkSrc(fset, ifs.Cond) != en+".ruleSet == nil" {
+				if strings.Contains(wkSrc(fset, st), en+".ruleSet") {
+					return nil, fmt.Errorf("engine.%s: statement on the rule set not understood: %s", name, wkSrc(fset, st))
+				}
+				continue
+			}
+			el, ok := ifs.Else.(*ast.BlockStmt)
+			if !ok || len(ifs.Body.List) != 1 || wkSrc(fset, ifs.Body.List[0]) != en+".ruleSet = rset" || len(el.List) != 3 ||
+				wkSrc(fset, el.List[0]) != "combinedRuleSet, err := mergeRuleSets([]*goRuleSet{"+en+".ruleSet, rset})" ||
+				wkSrc(fset, el.List[1]) != "if err != nil { return err }" ||
+				wkSrc(fset, el.List[2]) != en+".ruleSet = combinedRuleSet" {
+				return nil, fmt.Errorf("engine.%s: installation of the loaded rule set not understood: %s", name, wkSrc(fset, st))
+			}
+			found = true
+		}
+		if !found {
+			return nil, fmt.Errorf("engine.%s: installation of the loaded rule set not found", name)
+		}
+	}
 	// --- ir_loader.go: loadSyntaxRule fan-out
 	lf, err := parser.ParseFile(fset, filepath.Join(l.repo, "ruleguard/ir_loader.go"), nil, 0)
 	if err != nil {
 		return nil, err
+	}
+	ldf := wkFindFunc(lf, "irLoader", "LoadFile")
+	lb := wkFindFunc(lf, "irLoader", "loadBundle")
+	if ldf == nil || lb == nil {
+		return nil, fmt.Errorf("irLoader.LoadFile / loadBundle not found")
+	}
+	for _, st := range ldf.Body.List {
+		if wkSrc(fset, st) == "if len(l.imported) != 0 { toMerge := []*goRuleSet{l.res} toMerge = append(toMerge, l.imported...) merged, err := mergeRuleSets(toMerge) if err != nil { return nil, err } l.res = merged }" {
+			t.loadFileMergeOK = true
+		} else if strings.Contains(wkSrc(fset, st), "mergeRuleSets") {
+			return nil, fmt.Errorf("LoadFile: merge of the imported bundles not understood: %s", wkSrc(fset, st))
+		}
+	}
+	bundleAppend := false
+	ast.Inspect(lb, func(n ast.Node) bool {
+		if rs, ok := n.(*ast.RangeStmt); ok && wkSrc(fset, rs.X) == "files" && len(rs.Body.List) > 0 &&
+			wkSrc(fset, rs.Body.List[len(rs.Body.List)-1]) == "l.imported = append(l.imported, rset)" {
+			bundleAppend = true
+		}
+		return true
+	})
+	if !t.loadFileMergeOK || !bundleAppend {
+		return nil, fmt.Errorf("LoadFile / loadBundle: own rules first, then the bundle files in order -- shape not found")
 	}
 	ls := wkFindFunc(lf, "irLoader", "loadSyntaxRule")
 	if ls == nil {
@@ -1342,6 +1488,11 @@ func walkerFamily(repo, which string) (string, error) {
 		}
 		fmt.Fprintf(&sb, "Definition gen_place_fan : list (N * list N) := [\n%s\n].\n\n", strings.Join(fs, ";\n"))
 		fmt.Fprintf(&sb, "(* runRules: the flag that ends the rule loop is ... of the callbacks' verdicts *)\nDefinition gen_matched_accumulates : bool := %v.\n", t.runLoop.Accumulates && !t.runLoop.Overwrites)
+		fmt.Fprintf(&sb, "\n(* the bookkeeping of merged rule sets (appendScopedRuleSet) and the gates of rulesRunner.run *)\n")
+		fmt.Fprintf(&sb, "Definition gen_merge_count_mode : string := %q%%string.\nDefinition gen_merge_comments_mode : string := %q%%string.\n", t.mergeCount, t.mergeComments)
+		fmt.Fprintf(&sb, "Definition gen_walk_gate : string := %q%%string.\nDefinition gen_comment_gate : string := %q%%string.\n", t.walkGate, t.commentGate)
+		fmt.Fprintf(&sb, "Definition gen_load_counts_each_rule : bool := %v.\nDefinition gen_merge_starts_empty : bool := %v.\n", t.placeAppend, t.mergeStartsEmpty)
+		fmt.Fprintf(&sb, "Definition gen_engine_load_first_direct_then_merge_after : bool := %v.\nDefinition gen_loadfile_merges_own_then_imported : bool := %v.\n", t.engineLoadOK, t.loadFileMergeOK)
 	}
 	return sb.String(), nil
 }
